@@ -51,7 +51,21 @@ def parseMd (js : List Json) : List (Cert String) :=
 def parseEnv (c : Json) : Enveloped String :=
   match obj? c "env" with
   | none => .absent
-  | some e => .signed (strD e "key") ((obj? e "corrupt").isNone)
+  | some e =>
+    -- a Signature that is not a child of the request element is not the request's enveloped signature
+    if boolD e "as_absent" then .absent
+    else .signed (strD e "key") ((bool? e "intact").getD (obj? e "corrupt").isNone)
+
+/-- structural facts about the enveloped signature (defaults: a profile-conformant signature on the
+    request element itself, covering it iff nothing was altered afterwards) -/
+def parseProfileOk (c : Json) : Bool :=
+  match obj? c "env" with
+  | none => true
+  | some e => (bool? e "profile_ok").getD true
+def parseCovers (c : Json) : Bool :=
+  match obj? c "env" with
+  | none => true
+  | some e => (bool? e "covers").getD ((bool? e "intact").getD (obj? e "corrupt").isNone)
 
 def parseDet (c : Json) : Option (DSig String String) :=
   match obj? c "det" with
@@ -66,6 +80,7 @@ def verdictName : Verdict → String
   | .notThisType => "not-this-type"
   | .signatureMissing => "enveloped-missing"
   | .missingKey => "missing-key"
+  | .profileBad => "profile-bad"
   | .signatureBad => "enveloped-bad"
   | .certificateBad => "certificate-bad"
   | .detachedMissing => "detached-missing"
@@ -85,7 +100,7 @@ def pathOf (cfg : Cfg String) (md : List (Cert String)) (m : Msg String String) 
   | .ok =>
     let env := match m.enveloped with
       | .absent => "unsigned"
-      | e => if envelopedValid md e then "enveloped-valid" else "enveloped-unverified"
+      | _ => if envelopedValid md m then "enveloped-valid" else "enveloped-unverified"
     let det := if m.binding = .redirect && requiresSigned cfg then "+detached" else ""
     let dst := match m.destination.filter truthyS with
       | none => "no-dest"
@@ -100,8 +115,10 @@ def parseRecvFields (c : Json) : Except String (TableEntry × Cfg String × Int 
     let cfg := parseCfg ((obj? c "cfg").getD Json.null) (strD c "receiver" "idp" == "idp")
     let m : Msg String String :=
       { binding := b, samlRequest := "M", relayState := str? c "relay", sigAlg := str? c "sigalg",
-        signature := parseDet c, enveloped := parseEnv c, version := strD c "version",
-        destination := str? c "dest", issueInstant := int? c "ts" }
+        signature := parseDet c, enveloped := parseEnv c, profileOk := parseProfileOk c, covers := parseCovers c,
+        version := strD c "version",
+        destination := str? c "dest", issueInstant := int? c "ts",
+        instantLexOk := (bool? c "ts_lex_ok").getD true }
     .ok (e, cfg, intD c "now", m)
   | none, _ => .error ("service not in the regenerated table: " ++ strD c "service")
   | _, none => .error ("unknown binding " ++ strD c "binding")
